@@ -1,0 +1,12 @@
+//go:build verif
+
+package xpath
+
+// VerifResetPluginState re-arms the lazy plugin load so that a verification
+// harness can exercise the cold-start window of LookupXpathFunction more than
+// once per process.  Only compiled with the 'verif' build tag.
+func VerifResetPluginState() {
+	mu.Lock()
+	pluginsLoaded = false
+	mu.Unlock()
+}
